@@ -7,15 +7,16 @@ from checks.inferlib import N
 META = {
     "id": "C14",
     "level": "proof",
-    "technique": "Coq theorems over a Gallina model of InferenceTable::relate (relate_sound, relate_complete_partial) + differential correspondence of scripted unification histories on one real InferenceTable (model == implementation modulo fresh-variable renaming) + the soundness property evaluated on the implementation's own bindings",
-    "level_text": "Machine-checked proofs (Coq 8.16, axiom-free) about the Gallina model coq/Infer/{Table,Unify}.v of chalk-solve's unifier (shallow normalisation, var/var cases by kind, relate_var_ty with kind filter, occurs check with universe test / cycle test / universe promotion, generalisation, lifetime / const / alias cases, fn pointers through relate_binders); the model is tied to /repo on every run: scripts (universes, variables in several universes, sequences of relate calls) run on one real InferenceTable and the full observable state after every step (values, classes, universes, goals, max universe) is compared inside Coq with the model's, modulo a bijection on variables created inside relate.  Independently, after every successful real relate the real bindings are applied to both sides and syntactic equality modulo the returned goals, value preservation and universe admissibility are checked on the implementation's output alone.",
-    "level_note": "Trusted: Coq kernel; hand-written model (tied by correspondence on generated histories of bounded depth); harness conversion sexp<->chalk_ir; python transcription of traces. ena's union-find is abstracted to classes. dyn/dyn relation and generalisation of dyn types are outside the model (never generated). Completeness/MGU is proved for a fragment only (see Props/C14.v); the full statement is kept as a Definition.",
+    "technique": "Coq theorems over a Gallina model of InferenceTable::relate (relate_sound, teq_sound_in_models, relate_complete_partial; full MGU statement kept as a Definition) + differential correspondence of scripted unification histories on one real InferenceTable (model == implementation modulo fresh-variable renaming, compared inside Coq) + soundness / universe admissibility / kind discipline evaluated on the implementation's own bindings",
+    "level_text": "Machine-checked proofs (Coq 8.16, axiom-free) about the Gallina model coq/Infer/{Table,Unify}.v of chalk-solve's unifier (shallow normalisation, var/var cases by kind, relate_var_ty with kind filter, occurs check with universe test / cycle test / universe promotion / fresh lifetime variables, generalisation with ADT variances, lifetime / const / alias cases, fn pointers through relate_binders): on the property's fragment a successful invariant relate re-establishes the table invariants, only extends the table, only lowers universes (ghost universe assignment: every placeholder and unknown of a bound value is visible from the variable's universe) and makes the two types equal under the new bindings up to the returned lifetime goals (teq, whose meaning is fixed by teq_sound_in_models: equal denotation in every model of the bindings and goals).  The model is tied to /repo on every run: scripts (universes, variables in several universes, sequences of relate calls) run on one real InferenceTable and the full observable state after every relate (values, classes, universes, goals, max universe) is compared inside Coq with the model's, modulo a bijection on the variables created inside relate; the head-constructor sweep (all TyKind pairs, lifetimes 7x7, consts 6x6, three variances) runs every time.  Independently, after every successful real relate the real bindings are applied to both sides and equality modulo the returned goals, value preservation, universe admissibility and the int/float kind discipline are checked on the implementation's output alone; a pair the implementation rejects but the model accepts is replayed with a candidate unifier on the real table.",
+    "level_note": "Trusted: Coq kernel; hand-written model (tied by correspondence on generated histories of bounded depth); harness conversion sexp<->chalk_ir; python transcription of traces; the cfg(chalk_verif) read-only hook InferenceTable::verif_state. ena's union-find is abstracted to classes. dyn/dyn relation and generalisation of dyn types are outside the model (never generated). relate_sound is for the invariant relation (covariant relation of lifetime-free types is covered by the correspondence only). Completeness/MGU is proved for one-sided matching against ground lifetime-free types only (relate_complete_partial); the full statement relate_complete_mgu_statement is a Definition, not a theorem.",
     "design_ref": "DESIGN.md section 4 C14",
     "bins": ["infer"],
     "assumptions": ["ADT / fn-def variance lists are padded with Invariant (stub UnificationDatabase), substitutions have at most 16 entries",
                     "const types are usize",
-                    "fuel: the model's OutOfFuel outcome is excluded by the theorems and never observed in the correspondence (fuel 200 >> term depth)"],
-    "quick_s": 60, "thorough_s": 600,
+                    "fuel: the model's OutOfFuel outcome is excluded by the theorems and never observed in the correspondence (fuel 200 >> term depth)",
+                    "relate_sound assumes the invariants inv K U t of the table (established by new tables and preserved by every successful relate) and well-kinded, in-scope arguments (okt)"],
+    "quick_s": 70, "thorough_s": 700,
 }
 
 THEOREMS = ["relate_sound", "teq_sound_in_models", "relate_complete_partial"]
